@@ -1,7 +1,7 @@
 (* C16 — barriers/measurements are transparent; labelled barriers sample where they stand. *)
 From Coq Require Import List Arith Permutation.
 Import ListNotations.
-From Yaqs Require Import Model.DigitalLoop Proofs.DigitalLoopP.
+From Yaqs Require Import Model.DigitalLoop Proofs.DigitalLoopP Model.Params Proofs.ParamsP.
 
 (* the scheduling loop ends for every circuit, in strong mode with sampling on or off and in weak mode
    (sampling = false), with at most one iteration per instruction *)
@@ -39,6 +39,13 @@ Theorem C16_columns : forall sampling c ev, NoDup (map id c) -> trajectory sampl
   count_samples ev = columns_allocated sampling c.
 Proof. exact columns_match. Qed.
 Print Assumptions C16_columns.
+
+(* the number of result columns of a layer-sampling run depends on the circuit of THIS run only: not on the circuits the same
+   parameter object was used for before, nor on the num_mid_measurements it was constructed with *)
+Theorem C16_columns_history_independent : forall h labelled p,
+  snd (run_layers labelled (layers_history h p)) = if sample_layers p then labelled + 2 else 1.
+Proof. exact layers_history_independent. Qed.
+Print Assumptions C16_columns_history_independent.
 
 Example C16_example :
   trajectory true [mk 0 G1 [0]; mk 1 G2 [0;1]; mk 2 SBar [0;1;2]; mk 3 G2 [2;1]; mk 4 Meas [0]; mk 5 G1 [2]; mk 6 G1 [0]]
